@@ -1621,3 +1621,10 @@ void QXmppTransferManager::setSupportedMethods(QXmppTransferJob::Methods methods
 {
     d->supportedMethods = methods;
 }
+
+#ifdef QXMPP_VERIF_HOOKS
+void QXmppTransferManager::verifSetIbbBlockSize(int blockSize)
+{
+    d->ibbBlockSize = blockSize;
+}
+#endif
